@@ -11,9 +11,8 @@
 (* items and the bump pointer must be exactly what the decoder found in b. *)
 (* The number of allocations is the number of pages that became live plus  *)
 (* e pages that were allocated and released again within the sync (e is    *)
-(* searched in 0..MaxWaste: with many commit workers dozens of pages are   *)
-(* handed out and given back; they must be exactly the allocated pages     *)
-(* that did not become live).                                              *)
+(* searched in 0..MaxWaste - with many commit workers there are dozens;    *)
+(* they must be exactly the allocated pages that did not become live).     *)
 (***************************************************************************)
 EXTENDS FreeList, Json, IOUtils, TLCExt
 
